@@ -2,6 +2,7 @@
 from __future__ import annotations
 
 import ast
+import re
 import itertools
 
 from .. import dl, lit
@@ -83,7 +84,7 @@ def rule_fold_sites(cx, prefix):
                     if parsed_same:
                         guarded = True
             key_site = f"{q}/_eval_const({src_txt})"
-            r.check(guarded, f"{key_site}-unguarded", (pm, c), f"`{stmt_key(st)}`: the expression is evaluated against the constant environment without the name-free guard; names bound earlier (possibly in another branch or loop pass) are baked into the firmware", sample=f"{q}: _eval_const({src_txt}) under not _expr_has_name")
+            r.check(guarded, f"{key_site}-unguarded", (pm, c), f"`{stmt_key(st)}`: the expression is evaluated against the constant environment without the name-free guard; names bound earlier (possibly in another branch or loop pass) are baked into the firmware", sample=f"{q}: _eval_const({src_txt}) under not _expr_has_name", construct=stmt_key(st, 200))
     if sites < 15:
         raise AnalysisError(f"only {sites} fold sites recognised (confirmed: 20)")
     cx.extra["fold_sites"] = sites
@@ -113,7 +114,7 @@ def rule_fold_sites(cx, prefix):
             if n.func.attr == "pop" if isinstance(n, ast.Call) else False:
                 r.ok(f"{q}: restore of {kt}")
                 continue
-            r.fail(f"{q}/env-read[{kt}]", (pm, n), f"`{stmt_key(par if isinstance(par, ast.stmt) else n)}` reads `{kt}` from the constant environment; the value found there was bound flow-insensitively (another branch, an earlier loop pass) and is baked into the firmware")
+            r.fail(f"{q}/env-read[{kt}]", (pm, n), f"`{stmt_key(par if isinstance(par, ast.stmt) else n)}` reads `{kt}` from the constant environment; the value found there was bound flow-insensitively (another branch, an earlier loop pass) and is baked into the firmware", construct=stmt_key(par if isinstance(par, ast.stmt) else n, 200))
 
 
 _LCD_FNS = {}
@@ -434,53 +435,23 @@ def run(cx):
     rule_fold_sites(cx, "C03")
 
     # ---- C03-ENV-WRITE -----------------------------------------------------------------------
-    r = cx.rule("C03-ENV-WRITE", "the constant environment only ever receives (a) the value evaluated from that very assignment's right-hand side, or (b) the unknown marker _ExprStr(...); augmented assignments, promoted names, loop variables, parameters and devices are invalidated with the marker", floor=15)
+    # what the environment receives is decided by evaluation (C03-GLOBAL-INIT: swaps, re-assignments, augmented assignments,
+    # list bookkeeping read back through len() folds); here only the ownership part: an object held in the environment is
+    # shared with every scope the environment was copied into, so it must not be mutated in place
+    r = cx.rule("C03-ENV-WRITE", "no list object held in the constant environment is mutated in place while parsing (append/remove/pop/extend/insert/clear/sort/reverse on a value looked up in the environment): the object is shared with the scopes it was copied into", floor=40)
     for q, fn in pm.funcs.items():
         loc = Locals(fn)
-        for n in walk_local(fn, include_self=False):
-            if not (isinstance(n, ast.Assign) and len(n.targets) == 1 and isinstance(n.targets[0], ast.Subscript) and is_env(n.targets[0].value)):
-                continue
-            kt = norm(n.targets[0].slice)
-            if kt in ("'_ctx'", "'_helpers'"):
-                continue
-            v = n.value
-            kinds = set()
-            vals = [v]
-            if isinstance(v, ast.Name):
-                vals = loc.defs.get(v.id, [v]) or [v]
-            for d in vals:
-                t = norm(d) if isinstance(d, ast.AST) else "?"
-                if isinstance(d, ast.Call) and call_name(d) == "_ExprStr":
-                    kinds.add("marker")
-                elif isinstance(d, ast.Call) and isinstance(d.func, ast.Attribute) and d.func.attr == "get" and is_env(d.func.value):
-                    kinds.add("restore")
-                elif isinstance(d, ast.Subscript) and norm(d.value) in ("evaluated_values",):
-                    kinds.add("rhs-value")
-                elif isinstance(d, ast.expr) and "eval_or_expr(" in t:
-                    kinds.add("rhs-value")
-                elif isinstance(d, ast.Subscript) and "eval_or_expr(" in norm(loc.resolve(d.value)):
-                    kinds.add("rhs-value")
-                else:
-                    kinds.add(f"other[{t[:40]}]")
-            bad = [k for k in kinds if k.startswith("other")]
-            if kinds == {"restore"}:
-                r.ok(f"{q}: env[{kt}] restored after a comprehension")
-                continue
-            # the augmented-assignment path must invalidate
-            in_aug = any(isinstance(a, ast.If) and "ast.AugAssign" in norm(a.test) for a in pm.ancestors(n))
-            if in_aug:
-                r.check(kinds == {"marker"}, f"{q}/augassign-invalidates[{kt}]", (pm, n), f"`{stmt_key(n)}`: an augmented assignment must mark the name unknown in the constant environment (it typically runs in a loop); found {sorted(kinds)}")
-            else:
-                r.check(not bad, f"{q}/env-write[{kt}]<-{sorted(kinds)}", (pm, n), f"`{stmt_key(n)}` stores {sorted(kinds)} into the constant environment", sample=f"{q}: env[{kt}] <- {sorted(kinds)}")
-    # tracked-list mutation at transpile time
-    psl = pm.func("_parse_simple_lines")
-    reported = False
-    for c in calls_in(psl):
-        if isinstance(c.func, ast.Attribute) and c.func.attr in ("append", "remove", "pop") and norm(c.func.value) == "current":
-            cur = Locals(psl).defs.get("current", [])
-            if not reported and any(isinstance(d, ast.Call) and is_env(d.func.value) for d in cur if isinstance(d, ast.Call) and isinstance(d.func, ast.Attribute)):
-                reported = True
-                r.fail("_parse_simple_lines/tracked-list-mutation", (pm, c), f"`{stmt_key(c)}` mutates a list object held in the constant environment while parsing: the object is shared with the scopes it was copied into and the mutation is applied once regardless of how often the statement runs")
+        hit = None
+        for c in walk_local(fn, include_self=False):
+            if isinstance(c, ast.Call) and isinstance(c.func, ast.Attribute) and c.func.attr in ("append", "remove", "pop", "extend", "insert", "clear", "sort", "reverse") and isinstance(c.func.value, ast.Name):
+                ds = loc.defs.get(c.func.value.id, [])
+                if any(isinstance(d, ast.Call) and isinstance(d.func, ast.Attribute) and d.func.attr == "get" and is_env(d.func.value) for d in ds) or any(isinstance(d, ast.Subscript) and is_env(d.value) for d in ds):
+                    hit = c
+                    break
+        if hit is None:
+            r.ok(f"{q}: no in-place mutation of environment values")
+        else:
+            r.fail(f"{q}/tracked-list-mutation", (pm, hit), f"`{stmt_key(hit)}` mutates a list object held in the constant environment while parsing: the object is shared with the scopes it was copied into and the mutation is applied once regardless of how often the statement runs", construct=stmt_key(hit, 200))
 
     # ---- C03-SCOPE-COPY ----------------------------------------------------------------------
     r = cx.rule("C03-SCOPE-COPY", "every child scope handed to the statement parser copies vars / var_types / var_declared (dict(...)/set(...)), never aliases the parent's", floor=12)
@@ -615,14 +586,45 @@ def m_enclosing(pm, node):
     return pm.enclosing_func(node)
 
 
+_C_ISMS = (
+    (re.compile(r"__redu_make_list<[^<>]*>\("), "__redu_make_list("),
+    (re.compile(r"__redu_list<[^<>]*>\(\)"), "__redu_make_list()"),
+    (re.compile(r"static_cast<(?:int|long|unsigned long|float|double)>\("), "__cast("),
+    (re.compile(r"(\b[A-Za-z_]\w*)\.length\(\)"), r"len(\1)"),
+    (re.compile(r"\bString\("), "str("),
+)
+
+
+def _list_remove(lst, v):
+    if v in lst:
+        lst.remove(v)
+
+
+_IR_BUILTINS = {
+    "__redu_make_list": lambda *a: list(a), "__cast": lambda v: v, "__redu_len": len, "len": len, "str": str,
+    "__redu_list_get": lambda l, i: l[i], "__redu_list_append": lambda l, v: l.append(v), "__redu_list_remove": _list_remove,
+    "max": max, "min": min, "abs": abs,
+}
+
+
+def _ir_eval(e_, env):
+    if isinstance(e_, (int, float)):
+        return e_
+    t = str(e_).replace("&&", " and ").replace("||", " or ").replace("!(", " not (").replace("true", "True").replace("false", "False")
+    for rx_, rep in _C_ISMS:
+        t = rx_.sub(rep, t)
+    return eval(t, {"__builtins__": {}, **_IR_BUILTINS}, env)
+
+
 def _ir_exec(nodes, env, budget):
-    """straight interpretation of the integer fragment of the IR (assignments, declarations, if/while/for-range)"""
+    """straight interpretation of the integer/string/list fragment of the IR (assignments, declarations, list helper
+    statements, if/while/for-range)"""
     for n in nodes:
         budget[0] -= 1
         if budget[0] < 0:
             raise AnalysisError("prologue interpretation did not terminate")
         cn = type(n).__name__
-        ev = lambda e_: e_ if isinstance(e_, (int, float)) else eval(str(e_).replace("&&", " and ").replace("||", " or ").replace("!(", " not (").replace("true", "True").replace("false", "False"), {"__builtins__": {}}, env)
+        ev = lambda e_: _ir_eval(e_, env)
         if cn in ("VarAssign", "VarDecl"):
             env[n.name] = ev(n.expr)
         elif cn == "IfStatement":
@@ -639,10 +641,56 @@ def _ir_exec(nodes, env, budget):
             for i_ in range(int(ev(n.count))):
                 env[n.var_name] = i_
                 _ir_exec(n.body, env, budget)
+        elif cn == "ExprStmt" and str(n.expr).lstrip().startswith("__redu_list_"):
+            ev(n.expr)
         elif cn in ("Sleep", "ExprStmt", "LedDecl", "LedOn", "LedOff"):
             continue
         else:
             raise AnalysisError(f"prologue interpretation met an unexpected {cn} node")
+
+
+class Reads:
+    """scripted analogue source: successive reads return successive values 13, 23, 33, ...; counts the reads"""
+    def __init__(self):
+        self.n = 0
+
+    def read(self, *a):
+        self.n += 1
+        return 10 * self.n + 3
+
+
+def eval_prologue(label, body, pot=False):
+    """partial evaluation of parse() on `body` (+ an idle main loop); returns (status, want, got, note, program) where
+    status is 'rejected' (note = exception name) or 'ok'; `want` = what Python's execution of the prologue leaves in its
+    int/str/list variables, `got` = what static initialisers followed by setup() leave (IR interpreted)"""
+    from .. import pe as pe_
+    src = ("from Reduino.Sensors import Potentiometer\npot = Potentiometer('A0')\n" if pot else "") + body + "while True:\n    a0 = 0\n"
+    py_src = Reads()
+    genv = {"__builtins__": {"range": range, "len": len, "max": max, "min": min, "abs": abs}, "pot": py_src}
+    exec(compile(body, f"<prologue {label}>", "exec"), genv)     # the checker's own script
+    want = {k: v for k, v in genv.items() if isinstance(v, (int, float, str, list)) and not isinstance(v, bool) and not k.startswith("__")}
+    try:
+        _it, out = pe_.parse_source(src)
+    except dl.Unsupported as e:
+        raise AnalysisError(f"parse() left the evaluable subset on prologue `{label}`: {e}")
+    if out.kind != "return":
+        return "rejected", want, None, str(out.value), None
+    prog = out.value
+    ir_src = Reads()
+    env = {"analogRead": ir_src.read, "A0": 0}
+    note = ""
+    try:
+        for d in list(prog.global_decls):
+            env[d.name] = _ir_eval(d.expr, dict(env))
+        _ir_exec([n for n in prog.setup_body if not type(n).__name__.endswith("Decl") or type(n).__name__ == "VarDecl"], env, [10000])
+        got = {k: env.get(k) for k in want}
+    except (NameError, SyntaxError, TypeError, ZeroDivisionError, IndexError, AttributeError, ValueError) as e:
+        got, note = None, f" (static initialisers/setup could not be evaluated: {type(e).__name__}: {e})"
+    if pot and got is not None and ir_src.n != py_src.n:
+        note += f" (sensor reads: Python {py_src.n}, firmware {ir_src.n})"
+        got = dict(got, __reads__=ir_src.n)
+        want = dict(want, __reads__=py_src.n)
+    return "ok", want, got, note, prog
 
 
 def rule_global_init(cx, rid):
@@ -667,28 +715,23 @@ def rule_global_init(cx, rid):
         "swap": "lo, hi = 1, 9\nlo, hi = hi, lo\nspan = lo - hi\n",
         "chain": "a = 1\nb = a + 1\na = 10\nc = a + b\n",
         "else-branch": "k = 0\nif k > 5:\n    k = 1\nelse:\n    k = 2\nj = k + 40\n",
+        # what the constant environment holds is read back by len() folds: strings and lists
+        "string-swap-len": 'short = "ab"\nlonger = "abcdef"\nshort, longer = longer, short\nn_short = len(short)\nn_longer = len(longer)\n',
+        "string-reassigned-len": 's = "ab"\ns = "abcd"\nn = len(s)\n',
+        "string-augmented-len": 's = "ab"\ns += "cd"\nn = len(s)\n',
+        "string-concat-len": 's = "ab"\nt = s + "xyz"\nn = len(t)\ns = "q"\nm = len(s) + len(t)\n',
+        "tuple-with-len": 's = "abc"\nn, s = len(s), "x"\nm = len(s)\n',
+        "list-swap-len": "xs = [1, 2, 3]\nys = [4]\nxs, ys = ys, xs\nn = len(xs)\nm = len(ys)\n",
+        "list-remove-first-only": "pattern = [1, 0, 1, 0]\npattern.remove(0)\nn = len(pattern)\nk = pattern[1]\n",
+        "list-append-len": "xs = [5]\nxs.append(6)\nxs.append(7)\nn = len(xs)\nlast = xs[2]\n",
+        "list-append-remove": "xs = [5, 6]\nxs.append(5)\nxs.remove(5)\nn = len(xs)\nfirst = xs[0]\n",
+        "counter-augmented": "count = 0\nfor i in range(3):\n    count += 2\nn = count * 2\n",
     }
     for label, body in scripts.items():
-        src = body + "while True:\n    a0 = 0\n"
-        want = {}
-        exec(compile(body, f"<prologue {label}>", "exec"), {"__builtins__": {"range": range}}, want)     # the checker's own integer script
-        try:
-            _it, out = pe_.parse_source(src)
-        except dl.Unsupported as e:
-            raise AnalysisError(f"parse() left the evaluable subset on prologue `{label}`: {e}")
-        if out.kind != "return":
-            r.fail(f"prologue[{label}]/accepted", (pm, pf), f"the integer prologue `{label}` is rejected with {out.value}")
+        st, want, got, why, prog = eval_prologue(label, body)
+        if st != "ok":
+            r.fail(f"prologue[{label}]/accepted", (pm, pf), f"the integer prologue `{label}` is rejected with {why}")
             continue
-        prog = out.value
-        env = {}
-        try:
-            for d in list(prog.global_decls):
-                env[d.name] = eval(str(d.expr), {"__builtins__": {}}, dict(env)) if not isinstance(d.expr, (int, float)) else d.expr
-            _ir_exec(list(prog.setup_body), env, [10000])
-            got = {k: env.get(k) for k in want}
-            why = ""
-        except (NameError, SyntaxError, TypeError, ZeroDivisionError) as e:
-            got, why = None, f" (static initialisers/setup could not be evaluated: {type(e).__name__}: {e})"
         decls = "; ".join(f"{d.c_type} {d.name} = {d.expr}" for d in list(prog.global_decls))
         r.check(got == want, f"prologue[{label}]/values-after-setup=python", (pm, pf), f"prologue `{label}`: Python leaves {want}; globals `{decls}` followed by setup() leave {got}{why}", sample=f"{label}: {want}")
     ehn = pm.func("_expr_has_name")
